@@ -86,7 +86,7 @@ Definition known_K1 (s : sigT) (c : callT) : bool :=
 (* K2: a map-splat entry repeats the name of an explicit named argument (or of another entry, up to -/_):
    add_from_value_map silently overrides instead of reporting a duplicate *)
 Definition known_K2 (c : callT) : bool :=
-  negb (dup_names (c_named c)) && dup_names (all_named c).
+  negb (dup_names (checked_named c)) && dup_names (all_named c).
 (* K3: the lone left-over keyword is named like the rest parameter: the rest parameter becomes that value *)
 Definition known_K3 (s : sigT) (c : callT) : bool :=
   match model_bind s c with BOk _ (Some (RValue _)) => true | _ => false end.
